@@ -149,6 +149,16 @@ func (r *Recorder) Eval(n int64) { r.mu.Lock(); r.evaluations += n; r.mu.Unlock(
 // Class bumps class counters without counting an evaluation.
 func (r *Recorder) Class(c string, n int64) { r.mu.Lock(); r.classes[c] += n; r.mu.Unlock() }
 
+// generator-level counters (what the shared generators produced, whichever check drew them); merged
+// into the class histogram of the recorder that writes.
+var (
+	genMu      sync.Mutex
+	genClasses = map[string]int64{}
+)
+
+// GenClass counts one generated structure of the named class.
+func GenClass(c string) { genMu.Lock(); genClasses["gen:"+c]++; genMu.Unlock() }
+
 // Sample stores up to perKind examples of each kind.
 func (r *Recorder) Sample(kind string, v any) {
 	r.mu.Lock()
@@ -246,6 +256,11 @@ func (r *Recorder) Write() error {
 		return err
 	}
 	base := filepath.Join(r.Env.PartsDir, fmt.Sprintf("%s.%d", r.ID, r.Env.Shard))
+	genMu.Lock()
+	for k, v := range genClasses {
+		r.classes[k] = v
+	}
+	genMu.Unlock()
 	hs := make([]uint64, 0, len(r.distinct))
 	for h := range r.distinct {
 		hs = append(hs, h)
